@@ -1950,7 +1950,12 @@ func (interp *Interpreter) cfg(root *node, sc *scope, importPath, pkgName string
 			}
 
 		case returnStmt:
-			if len(n.child) > sc.def.typ.numOut() {
+			// The number of returned values: the operands, or the results of a single call operand.
+			nret := len(n.child)
+			if nret == 1 && isCall(n.child[0]) {
+				nret = n.child[0].child[0].typ.numOut()
+			}
+			if nret > sc.def.typ.numOut() {
 				err = n.cfgErrorf("too many arguments to return")
 				break
 			}
@@ -1961,15 +1966,10 @@ func (interp *Interpreter) cfg(root *node, sc *scope, importPath, pkgName string
 				}
 			}
 			returnSig := sc.def.child[2]
-			if mustReturnValue(returnSig) {
-				nret := len(n.child)
-				if nret == 1 && isCall(n.child[0]) {
-					nret = n.child[0].child[0].typ.numOut()
-				}
-				if nret < sc.def.typ.numOut() {
-					err = n.cfgErrorf("not enough arguments to return")
-					break
-				}
+			// A return statement without operand is allowed if the results are named.
+			if (mustReturnValue(returnSig) || len(n.child) > 0) && nret < sc.def.typ.numOut() {
+				err = n.cfgErrorf("not enough arguments to return")
+				break
 			}
 			wireChild(n)
 			n.tnext = nil
